@@ -24,7 +24,7 @@ import (
 func init() {
 	Registry["C11"] = &Check{
 		Scenarios: c11Scenarios,
-		Rule: "every CER over Origin-Host {absent, present} x Origin-Realm {absent, present} x Inband-Security-Id {absent, 0, 1, 2^31-1, the list [0, 1]} x every sequence (so every order) of <=2 (thorough 3) application AVPs over 20 atoms (18 + Auth / Acct of an application id that a dictionary loaded into dict.Default declares under both types): Acct-Application-Id {3 supported, 4 wrong type, 999 unsupported, relay}, Auth-Application-Id {4, 3 wrong type, 999, relay}, Vendor-Specific-Application-Id groups {[Vendor-Id, Auth 4], [Auth 999, Vendor-Id], [Vendor-Id, Auth 999], [Vendor-Id, Acct 3], [Vendor-Id], [Auth 16777251], [Acct 999], [Auth 4, Auth 999], [Auth 999, Auth 4], []}; settings with and without configured HostIPAddresses; local endpoint over {10.1.2.3, loopback, an IPv6 address in brackets, a multihomed SCTP endpoint 127.0.0.1/10.1.2.3/[2001:db8::7]}; hop-by-hop / end-to-end ids rotate over {0,1,2^31,2^32-1}. Each CER is sent end-to-end, on a connection of its own, to ONE state machine per scenario (so a verdict that depends on earlier CERs is caught; the visiting order alternates rich and poor CERs) over the in-memory transport, followed by an RAR whose gated handler reads the connection metadata. One deterministic schedule per CER (the quantifier is over inputs).",
+		Rule: "every CER over Origin-Host {absent, present} x Origin-Realm {absent, present} x Inband-Security-Id {absent, 0, 1, 2^31-1, the list [0, 1]} x every sequence (so every order) of <=2 (thorough 3) application AVPs over 20 atoms (18 + Auth / Acct of an application id that a dictionary loaded into dict.Default declares under both types): Acct-Application-Id {3 supported, 4 wrong type, 999 unsupported, relay}, Auth-Application-Id {4, 3 wrong type, 999, relay}, Vendor-Specific-Application-Id groups {[Vendor-Id, Auth 4], [Auth 999, Vendor-Id], [Vendor-Id, Auth 999], [Vendor-Id, Acct 3], [Vendor-Id], [Auth 16777251], [Acct 999], [Auth 4, Auth 999], [Auth 999, Auth 4], []}; settings with configured HostIPAddresses, with the deprecated single HostIPAddress only, and without configured addresses; local endpoint over {10.1.2.3, loopback, an IPv6 address in brackets, a multihomed SCTP endpoint 127.0.0.1/10.1.2.3/[2001:db8::7]}; hop-by-hop / end-to-end ids rotate over {0,1,2^31,2^32-1}. Each CER is sent end-to-end, on a connection of its own, to ONE state machine per scenario (so a verdict that depends on earlier CERs is caught; the visiting order alternates rich and poor CERs) over the in-memory transport, followed by an RAR whose gated handler reads the connection metadata. One deterministic schedule per CER (the quantifier is over inputs).",
 		Assume: []string{"reference acceptance predicate written from the statement, with application support read from the independent refdict model of the embedded XML", "single default schedule per input"},
 		QuickBudget: 120, ThoroughBudget: 1800,
 	}
@@ -166,6 +166,9 @@ func c11AddrSubset(got, endpoint [][]byte) bool {
 }
 
 func c11Run(r *SeqResult, host, realm bool, inband int, cfgIP bool, loop int, maxN int) {
+	// with configured addresses the local-endpoint index is not consulted: index 1 stands for "the
+	// address is configured through the deprecated Settings.HostIPAddress only"
+	deprecatedIP := cfgIP && loop == 1
 	atoms := c11Atoms()
 	c11Supported("auth", 4) // loads the dual-type dictionary before the state machine is created
 	var seqs [][]int
@@ -186,6 +189,11 @@ func c11Run(r *SeqResult, host, realm bool, inband int, cfgIP bool, loop int, ma
 	settings := &sm.Settings{OriginHost: "srv.local", OriginRealm: "local", VendorID: 99, ProductName: "prod"}
 	if cfgIP {
 		settings.HostIPAddresses = []datatype.Address{datatype.Address(net.ParseIP("192.0.2.7")), datatype.Address(net.ParseIP("192.0.2.8"))}
+		if deprecatedIP {
+			// the address is configured through the deprecated single-valued field only
+			settings.HostIPAddresses = nil
+			settings.HostIPAddress = datatype.Address(net.ParseIP("192.0.2.7"))
+		}
 	}
 	mach := sm.New(settings)
 	var curMeta **smpeer.Metadata
@@ -278,6 +286,9 @@ func c11Run(r *SeqResult, host, realm bool, inband int, cfgIP bool, loop int, ma
 			wantIP := c11Locals[loop].want
 			if cfgIP {
 				wantIP = [][]byte{refcodec.Address(1, []byte{192, 0, 2, 7}), refcodec.Address(1, []byte{192, 0, 2, 8})}
+				if deprecatedIP {
+					wantIP = wantIP[:1]
+				}
 			}
 			var gotIP [][]byte
 			for _, x := range cea.FindAll(257) {
